@@ -382,13 +382,23 @@ def compose(rng, base, negative=None):
                     pr.update(avr=eidx, u=1)
                     for drop in ("busr", "busf", "busr2", "busf2"):
                         pr.pop(drop, None)
+                    tagp = pk[1]
+                    if pk[1] == "IEEEST" and rng.random() < 0.6:
+                        # other input signals (power, voltage: non-zero in steady state) and the documented lag mode of the
+                        # washout (numerator constant zero); output limits opened so the operating point stays inside them
+                        pr["MODE"] = int(rng.integers(1, 7))
+                        if rng.random() < (0.6 if pr["MODE"] not in (3, 5) else 0.15):
+                            pr["T5"] = 0.0
+                        pr.update(LSMAX=99.0, LSMIN=-99.0, VCU=0.0, VCL=0.0)
+                        tagp = "IEEEST(MODE=%d,T5=%g)" % (pr["MODE"], pr["T5"])
                     ss.add(pk[1], pr)
                     count += 1
-                    stack.append(pk[1])
+                    stack.append(tagp)
             if rng.random() < 0.7 and gov_models:
                 gk = gov_models[int(rng.integers(0, len(gov_models)))]
                 gr = dict(lib[gk][int(rng.integers(0, len(lib[gk])))])
                 gr.update(syn=sidx, u=1)
+                gr.pop("syn2", None)          # a harvested row may name a second machine of its own case
                 ss.add(gk[1], gr)
                 count += 1
                 stack.append(gk[1])
@@ -400,10 +410,33 @@ def compose(rng, base, negative=None):
     return ss, desc, count
 
 
+def open_limits(ss):
+    """Limiter bounds that are plain input parameters are moved far out (before set-up): the composed operating point then lies
+    inside all limiter ranges, which is the property's precondition (rows harvested from stock cases bring limits tuned for the
+    operating point of their own case).  Returns the number of bounds changed."""
+    from andes.core.param import NumParam
+    nchg = 0
+    for mname, m in ss.models.items():
+        if m.n == 0 or not m.flags.tds or m.flags.pflow:
+            continue
+        for d in m.discrete.values():
+            if type(d).__name__ not in ("Limiter", "HardLimiter", "AntiWindup", "AntiWindupRate", "SortedLimiter"):
+                continue
+            for side, far in (("lower", -999.0), ("upper", 999.0)):
+                b = getattr(d, side, None)
+                if isinstance(b, NumParam) and b.name in m.params and m.params[b.name] is b:
+                    b.v = [far for _ in range(m.n)] if isinstance(b.v, list) else np.full(m.n, far)
+                    nchg += 1
+    return nchg
+
+
 def run_composed(spec, res):
     rng = rng_for(spec.get("seed", 0), PROPERTY, 1, spec["index"])
     base = ["kundur/kundur_full.xlsx", "ieee14/ieee14_full.xlsx", "ieee39/ieee39_full.xlsx", "wscc9/wscc9.xlsx", "5bus/pjm5bus.xlsx"][int(rng.integers(0, 5))]
     ss, desc, count = compose(rng, base)
+    if spec["index"] % 4 != 3:
+        res.count("limiter_bounds_opened", open_limits(ss))
+        desc = ["limits opened"] + desc
     res.count("composed_systems")
     tag = "composed on %s: %s" % (base, desc[:6])
     try:
@@ -424,7 +457,17 @@ def run_composed(spec, res):
     if out["active"] or out.get("illposed"):
         res.count("out_of_scope_limiter_or_time_driven")
     elif out["test_ok"] is not True:
-        res.violate("init_failed_on_consistent_data", "%s: initialisation reports failure (independent residual %.3e) with no limiter active" % (tag, out["worst"]))
+        # mechanism predicate (not a case key): a stabiliser whose washout is switched to its lag mode (numerator constant 0)
+        # while its input signal is non-zero in steady state has a non-zero steady output, which ANDES' stabiliser /
+        # exciter initialisation has no place for
+        mech = "init_failed_on_consistent_data"
+        wn = str(out.get("worst_name"))
+        if wn.startswith(("Vss IEEEST", "vsout IEEEST")) and ss.IEEEST.n:
+            I = ss.IEEEST
+            if any(I.T5.v[k] == 0 and int(I.MODE.v[k]) in (3, 5) and I.u.v[k] != 0 for k in range(I.n)):
+                mech = "pss_lag_mode_nonzero_steady_output"
+        res.violate(mech, "%s: initialisation reports failure (independent residual %.3e at %s) with no limiter active" % (tag, out["worst"], wn),
+                    worst=wn)
     res.nontrivial = count >= 4
     res.sample = dict(base=base, stacks=desc[:8], devices=count, test_ok=out["test_ok"], residual=out["worst"], drift=out.get("drift"), active=out["active"][:4])
 
